@@ -137,7 +137,7 @@ def dropAll (cfg : Cfg) (st : St) : Out St := do
 /-- Is anything still allocated? (what LeakSanitizer reports once the application has forgotten its handles) -/
 def anythingLeft (st : St) : Bool :=
   st.tree.wins.any (fun w => !w.freed) || st.pens.any (fun p => !p.freed) || st.strs.any (fun s => !s.freed) ||
-  st.rbs.any (fun b => !b.freed) || !st.term.freed || st.leakedReqs > 0 || !st.tree.root.changes.isEmpty
+  st.rbs.any (fun b => !b.freed) || !st.term.freed || !st.tree.root.changes.isEmpty
 
 /-- One operation of the application.  The string is the result part of the observation. -/
 def step (cfg : Cfg) (st : St) : Op → Out (St × String)
